@@ -380,6 +380,7 @@ func (e *Exec) Judge() *Judgement {
 	e.monitorAtomic(j, events)
 	e.monitorValidated(j, events)
 	e.monitorMaster(j, events)
+	e.monitorPush(j, events)
 	return j
 }
 
